@@ -77,6 +77,11 @@ class OpsMixin:
             if op is ast.Add:
                 return [(st, self.concat_strs([a, b]))]
         if ka == "str" and op is ast.Mult and kb == "int" and is_host(a):
+            h = self.specs.get("str_repeat")  # contract-supplied dependency spec of `"lit" * n` (C35)
+            if h is not None:
+                r = h(self, st, [a, b], {}, node)
+                if r is not None:
+                    return r
             raise Unsupported("str * symbolic int", node)
         if ka == "str" and op is ast.Mod:
             raise Unsupported("%-formatting of symbolic strings needs a dependency spec", node)
